@@ -32,8 +32,10 @@ SizeOf(rs) == Cardinality(SetOf(rs))
 Ranges == {<<a, b>> : a \in Addr, b \in Addr}
 RangeLists == UNION {[1..n -> Ranges] : n \in 0..MaxRanges}
 
-Vector(g, m, rs) ==
-    [g |-> g, m |-> m, ranges |-> rs, valid |-> Valid(g, m, rs),
+\* d: the address written in the "subnet" field of the configuration; only its prefix length matters, the pool's subnet is
+\* the gateway's (what Contains, enumeration and reload use)
+Vector(g, m, rs, d) ==
+    [g |-> g, m |-> m, d |-> d, ranges |-> rs, valid |-> Valid(g, m, rs),
      size |-> IF Valid(g, m, rs) THEN SizeOf(rs) ELSE 0,
      members |-> IF Valid(g, m, rs) THEN SetOf(rs) ELSE {}]
 
@@ -46,7 +48,8 @@ Laws ==
             /\ SizeOf(rs) = LET S(i) == rs[i][2] - rs[i][1] + 1 IN
                             LET RECURSIVE Sum(_) Sum(i) == IF i = 0 THEN 0 ELSE S(i) + Sum(i - 1) IN Sum(Len(rs))
 
-Vectors == {Vector(g, m, rs) : g \in Gateways, m \in Masks, rs \in RangeLists}
+Decls(g, m) == {(g \div Block(m)) * Block(m), ((g \div Block(m)) * Block(m) + Block(m)) % (Top + 1)}
+Vectors == {Vector(g, m, rs, d) : g \in Gateways, m \in Masks, rs \in RangeLists, d \in {x \in Addr : \E gg \in Gateways, mm \in Masks : x \in Decls(gg, mm)}}
 ASSUME Laws
 ASSUME JsonSerialize(OutFile, [w |-> W, n |-> Cardinality(Vectors), vectors |-> Vectors])
 ASSUME PrintT(<<"VECTORS", Cardinality(Vectors), "valid", Cardinality({v \in Vectors : v.valid})>>)
